@@ -60,6 +60,7 @@ func runC01(c *Check) {
 			return p.IsCall(a, "app.filterOut") && derivesOnly(a.Args[0], func(b *Term) bool { return b.Op == "param" && b.Name == "2" })
 		})
 		c.Req(okl, name, p.InstrPos(ro), "freeze-ro:list", "the frozen set is the active-list parameter, at most with hosts removed", "list is "+list.String())
+		checkFreezeFilter(c)
 		cl := ro.Common().Args[0].(*ssa.MakeClosure).Fn.(*ssa.Function)
 		cfa := p.FA(cl)
 		for i, rs := range c.SuccessSites(cl, 0, "nil") {
@@ -795,3 +796,51 @@ func checkOldMasterHandled(c *Check) {
 			c.Req(okr, name, p.InstrPos(g), "clean-branch:whose-status", "the status examined is the old master's", "receiver "+rt.String())
 		}
 	}
+
+// elementsOfLiteral: the values stored into the backing array of a slice literal.
+func elementsOfLiteral(p *Prog, v ssa.Value) []ssa.Value {
+	return variadicOperands(v)
+}
+
+// checkFreezeFilter (shared by C01.g1 and C07.REFREEZE).
+func checkFreezeFilter(c *Check) {
+	p := c.p
+	P, _ := promotionTarget(c)
+	fa := p.FA(P)
+	name := p.Name(P)
+	ros := freezeCalls(c, P, "set_readonly(_no_super)?")
+	if len(ros) == 0 {
+		panic(AnchorError{"read-only freeze phase in " + name})
+	}
+	list := p.T(ros[0].Common().Args[1])
+		// the only host ever left out of the freeze is the old master, and only when an AUTOMATIC request names it as
+		// the host to move away from (it is the failed one). A resumed failover finds the NEW master recorded as
+		// "old master": leaving that one out would promote a second node beside it.
+		nf := 0
+		for _, a := range list.Alts() {
+			if !p.IsCall(a, "app.filterOut") {
+				continue
+			}
+			nf++
+			fc := a.In.(ssa.CallInstruction)
+			rem := c.eff.variadic(fc.Common().Args[1])
+			okr := len(rem) == 1 && isParam(p.T(rem[0]), "4")
+			if !okr {
+				// a slice literal []string{oldMaster}
+				rt := p.T(fc.Common().Args[1])
+				okr = rt.Op == "slice" && len(elementsOfLiteral(p, fc.Common().Args[1])) == 1 && isParam(p.T(elementsOfLiteral(p, fc.Common().Args[1])[0]), "4")
+			}
+			c.Req(okr, name, p.InstrPos(fc), nthKey("freeze-ro:filter-removes-old-master-only", nf), "the only host removed from the freeze list is the old master", "removed: "+p.T(fc.Common().Args[1]).String())
+			c.Gate(fa, fc, nthKey("freeze-ro:filter-only-auto", nf), "the old master is left out of the freeze only for an automatic request", func(l Lit) bool {
+				return l.Pos && l.T.Op == "eq" && l.T.Args[0].IsField("Cause") && isParam(l.T.Args[0].Args[0], "3") && l.T.Args[1].IsConst("auto")
+			})
+			c.Gate(fa, fc, nthKey("freeze-ro:filter-only-failed-host", nf), "… and only when the request moves away from exactly that host (on a resumed failover the recorded master is already the new one and must be frozen like everybody else)", func(l Lit) bool {
+				if !l.Pos || l.T.Op != "eq" {
+					return false
+				}
+				x, y := l.T.Args[0], l.T.Args[1]
+				return (x.IsField("From") && isParam(x.Args[0], "3") && isParam(y, "4")) || (y.IsField("From") && isParam(y.Args[0], "3") && isParam(x, "4"))
+			})
+		}
+	c.Req(nf >= 1, name, "-", "freeze-ro:filter-sites", "the freeze list has its old-master filter", fmt.Sprintf("%d", nf))
+}
